@@ -81,10 +81,16 @@ class EventLog(object):
         self.events = []
         self.cap = cap
         self._tokens = {}
+        # Byte counts of writes are left out of the log where a run may legitimately print values that are not a function
+        # of the scenario (mpilot's curve commands leave cells holding NaN unassigned in a numpy.empty buffer: whatever
+        # was in that memory is printed).  The operations themselves stay in the log.
+        self.blind_sizes = False
 
     def emit(self, kind_, **payload):
         if len(self.events) >= self.cap:
             raise StepCapExceeded("event cap %d exceeded" % self.cap)
+        if self.blind_sizes and "n" in payload and kind_ in ("fs", "stdout", "stderr"):
+            payload.pop("n")
         self.events.append((kind_, payload))
         return len(self.events) - 1
 
